@@ -1041,8 +1041,8 @@ version = 1
 @builtinify
 def dump(x, f, version=version, python_version=None):
     # XXX 'version' is ignored, we always dump in a version-0-compatible format
-    m = _Marshaller(f.write, python_version)
-    m.dump(x)
+    # The marshaller emits text chunks; dumps() turns them into the bytes a binary file takes.
+    f.write(dumps(x, version, python_version))
 
 
 @builtinify
